@@ -150,11 +150,12 @@ def runHHist (cfg : Cfg) : Store → List HSchema → List (Nat × HOp) → Stor
 
 /-! ### behaviour as a function of the observations of the live schemas -/
 
-/-- abstract inputs: a scalar token, or a sequence of scalar tokens (slice / tuple elements; for records and maps the
-    entries, key token = value token) -/
+/-- abstract inputs: a scalar token, a slice of scalar tokens (slice / tuple elements), or a map whose entries are
+    (token ↦ the same token) (records and maps) -/
 inductive HIn
   | tok (v : Nat)
   | seq (vs : List Nat)
+  | kv (vs : List Nat)
 deriving DecidableEq, Repr
 
 /-- identity ↦ observation, for every live schema -/
@@ -184,13 +185,13 @@ def hBody (mem : Loc → HIn → Bool) (o : HObs) (inp : HIn) : Bool :=
   | .inter => (o.singles.filterMap id).all (fun m => mem m inp)
   | .enum => (match inp with
     | .tok v => (listAt o 0).contains v
-    | .seq _ => false)
+    | _ => false)
   | .list => (match inp with
     | .seq vs => lenOk o.base.checks vs.length &&
         (match single o 0 with
          | some e => vs.all (fun v => mem e (.tok v))
          | none => true)
-    | .tok _ => false)
+    | _ => false)
   | .tuple => (match inp with
     | .seq vs =>
       let items := listAt o 0
@@ -199,12 +200,12 @@ def hBody (mem : Loc → HIn → Bool) (o : HObs) (inp : HIn) : Bool :=
         (match single o 0 with
          | some r => (vs.drop items.length).all (fun v => mem r (.tok v))
          | none => vs.length == items.length)
-    | .tok _ => false)
+    | _ => false)
   | .keyed => (match inp with
-    | .seq vs => lenOk o.base.checks vs.length &&
+    | .kv vs => lenOk o.base.checks vs.length &&
         vs.all (fun v => (match single o 0 with | some kt => mem kt (.tok v) | none => true) &&
                          (match single o 1 with | some vt => mem vt (.tok v) | none => true))
-    | .tok _ => false)
+    | _ => false)
   | .transform => (match single o 0 with
     | some src => mem src inp
     | none => false)
@@ -238,11 +239,18 @@ structure HDoc where
   reg : Option Nat
 deriving DecidableEq, Repr
 
-def sizeMin (cks : List Nat) : Option Nat :=
-  cks.foldl (fun acc c => if c % 8 = 1 || c % 8 = 6 then some (max (acc.getD 0) (c / 8)) else acc) none
+/-- the size annotations the checks of a container leave in the Bag, in check order (internal/checks/length.go: the
+    OnAttach callbacks of MinSize / MaxSize / Size call `setMinSizeProperty` / `setMaxSizeProperty`, plain assignments: the
+    LAST check of each kind wins; an exact size assigns both) -/
+def sizeAnn (cks : List Nat) : Option Nat × Option Nat :=
+  cks.foldl (fun acc c =>
+    if c % 8 = 1 then (some (c / 8), acc.2)
+    else if c % 8 = 2 then (acc.1, some (c / 8))
+    else if c % 8 = 6 then (some (c / 8), some (c / 8))
+    else acc) (none, none)
 
-def sizeMax (cks : List Nat) : Option Nat :=
-  cks.foldl (fun acc c => if c % 8 = 2 || c % 8 = 6 then some (match acc with | some a => min a (c / 8) | none => c / 8) else acc) none
+def sizeMin (cks : List Nat) : Option Nat := (sizeAnn cks).1
+def sizeMax (cks : List Nat) : Option Nat := (sizeAnn cks).2
 
 def hDoc (o : HObs) : HDoc :=
   { k := o.k,
